@@ -274,7 +274,11 @@ func coverCase(i int, v *vec, sum *hx.Summary, seen map[string]bool) {
 	hs := dns.HashName(name, dns.SHA1, iter, salt)
 	hb, err := b32.DecodeString(strings.ToUpper(hs))
 	if err != nil || len(hb) != 20 {
-		hx.Die("HashName(%q) = %q is not a SHA-1 hash", name, hs) // judged by the nsec3 vectors, not here
+		// no hash to build a record around.  The value itself is judged by the nsec3 vectors (the same names are there);
+		// here only its form: B32Hex of a 20-octet hash is 32 characters of the base32hex alphabet (Trace_Dnssec17!HashKey
+		// judges recorded calls by the same clause, under the same key)
+		sum.Mis("nsec3/hashname-format", fmt.Sprintf("HashName(%q, SHA1, %d, %q) = %q is not the base32hex text of a SHA-1 hash", name, iter, salt, hs), v)
+		return
 	}
 	H := new(big.Int).SetBytes(hb)
 	at := func(pos int) string {
@@ -465,6 +469,120 @@ func respell(r *rand.Rand, s string) string {
 	return b.String()
 }
 
+// denseLabels: labels whose text is long for their octets -- most octets need an escape in the library's own
+// presentation form -- of up to 63 octets each, at most budget octets on the wire without the root octet.  The
+// names the library itself hands out for binary labels: a text of more than 255 characters from 63 octets on.
+func denseLabels(r *rand.Rand, budget int) []string {
+	flavour := r.Intn(3)
+	var ls []string
+	for budget >= 2 && len(ls) < 126 {
+		max := budget - 1
+		if max > 63 {
+			max = 63
+		}
+		l := 1 + r.Intn(max)
+		if r.Intn(3) == 0 {
+			l = max
+		}
+		b := make([]byte, l)
+		for j := range b {
+			k := flavour
+			if r.Intn(6) == 0 {
+				k = r.Intn(4)
+			}
+			switch k {
+			case 0:
+				b[j] = byte(r.Intn(32))
+			case 1:
+				b[j] = byte(127 + r.Intn(129))
+			case 2:
+				b[j] = densePunct[r.Intn(len(densePunct))]
+			default:
+				b[j] = "abcxyz019-"[r.Intn(10)]
+			}
+		}
+		ls = append(ls, string(b))
+		budget -= l + 1
+		if r.Intn(5) == 0 {
+			break
+		}
+	}
+	return ls
+}
+
+const densePunct = ".\\@();\"' -_09"
+
+func denseBudget(r *rand.Rand, max int) int {
+	b := []int{8, 40, 63, 64, 65, 70, 100, 128, 130, 200, 254}[r.Intn(11)]
+	if b > max {
+		b = max
+	}
+	return b
+}
+
+// respellAny writes the octets of a presentation-format name in another of their spellings (same name, RFC 1035
+// section 5.1): \\DDD, \\X for a printable octet that is not a digit, or as they are.  Upper-case letters stay as they
+// are (their \\DDD spelling is the class of its own that respell exercises).
+func respellAny(r *rand.Rand, s string) string {
+	var b strings.Builder
+	all := r.Intn(3) // 0: every octet \\DDD, 1: every octet that may be \\X, 2: octet by octet
+	put := func(c byte, sep bool) {
+		if sep { // an unescaped dot separates labels
+			b.WriteByte('.')
+			return
+		}
+		how := all
+		if all == 2 {
+			how = r.Intn(3)
+		}
+		switch {
+		case c >= 'A' && c <= 'Z':
+			b.WriteByte(c)
+		case how == 0:
+			fmt.Fprintf(&b, "\\%03d", c)
+		case how == 1 && c > 32 && c < 127 && (c < '0' || c > '9'):
+			b.WriteByte('\\')
+			b.WriteByte(c)
+		case c <= 32 || c >= 127 || strings.IndexByte(".\\@();\"' ", c) >= 0:
+			fmt.Fprintf(&b, "\\%03d", c)
+		default:
+			b.WriteByte(c)
+		}
+	}
+	for i := 0; i < len(s); i++ {
+		c := s[i]
+		switch {
+		case c == '\\' && i+3 < len(s) && s[i+1] >= '0' && s[i+1] <= '9' && s[i+2] >= '0' && s[i+2] <= '9' && s[i+3] >= '0' && s[i+3] <= '9':
+			v, _ := strconv.Atoi(s[i+1 : i+4])
+			put(byte(v), false)
+			i += 3
+		case c == '\\' && i+1 < len(s):
+			put(s[i+1], false)
+			i++
+		default:
+			put(c, c == '.')
+		}
+	}
+	return b.String()
+}
+
+// spelled: one name in eight re-spells some letters as \\DDD; one in six of the others is dense, half of those in
+// another spelling than the library's
+func spelled(r *rand.Rand, plain func() []string, dense func() []string) string {
+	if r.Intn(6) == 0 {
+		name := present(dense())
+		if r.Intn(2) == 0 {
+			name = respellAny(r, name)
+		}
+		return name
+	}
+	name := present(plain())
+	if r.Intn(8) == 0 {
+		name = respell(r, name)
+	}
+	return name
+}
+
 func limbs(v uint32) []int { return []int{int(v >> 16), int(v & 0xffff)} }
 
 func record(out string, n int) {
@@ -493,20 +611,14 @@ func record(out string, n int) {
 		case 1:
 			key := make([]byte, []int{4, 32, 64, 96, 132, 260}[r.Intn(6)])
 			r.Read(key)
-			owner := present(randLabels(r, 4))
-			if r.Intn(8) == 0 {
-				owner = respell(r, owner)
-			}
+			owner := spelled(r, func() []string { return randLabels(r, 4) }, func() []string { return denseLabels(r, denseBudget(r, 254)) })
 			flags, alg := []int{256, 257, 385}[r.Intn(3)], algs[r.Intn(len(algs))]
 			// digest types: the defined ones, their neighbours (0, 3, 5, 6), the octet boundaries, anything
 			e := obsDS(owner, flags, 3, alg, key, []int{1, 2, 4, 1, 2, 4, 0, 3, 5, 6, 7, 127, 128, 255, r.Intn(256), r.Intn(256)}[r.Intn(16)])
 			seen["ds"+owner+fmt.Sprint(e.Dt, key)] = true
 			w.Emit(e)
 		case 2:
-			name := present(randLabels(r, 5))
-			if r.Intn(8) == 0 {
-				name = respell(r, name)
-			}
+			name := spelled(r, func() []string { return randLabels(r, 5) }, func() []string { return denseLabels(r, denseBudget(r, 254)) })
 			salt := make([]byte, []int{0, 0, 1, 4, 8, 16, 40}[r.Intn(7)])
 			r.Read(salt)
 			iter := []int{0, 1, 2, 3, 5, 10, 12, 50, 100, 500}[r.Intn(10)]
@@ -519,7 +631,14 @@ func record(out string, n int) {
 		case 3:
 			zl := [][]string{{"example", "ORG"}, {"Sub", "example", "org"}, {"com"}, {"a", "b", "c", "d"}}[r.Intn(4)]
 			var nl []string
-			switch r.Intn(5) {
+			dense := false
+			switch r.Intn(6) {
+			case 5: // below the zone, labels whose text is long for their octets
+				zw := 3 // the label "n" and the root octet
+				for _, l := range zl {
+					zw += 1 + len(l)
+				}
+				nl, dense = append(append(denseLabels(r, denseBudget(r, 255-zw)), "n"), zl...), true
 			case 0: // elsewhere
 				nl = append(randLabels(r, 2), "other", "tld")
 			case 1: // shares the text suffix but not the label boundary
@@ -530,11 +649,15 @@ func record(out string, n int) {
 				nl = append(append(randLabels(r, 2), "n"), zl...)
 			}
 			for j := range nl { // names are case-insensitive
-				if r.Intn(3) == 0 {
+				if r.Intn(3) == 0 && (!dense || j >= len(nl)-len(zl)) {
 					nl[j] = strings.ToUpper(nl[j])
 				}
 			}
 			name, zone := present(nl), present(zl)
+			if dense && r.Intn(2) == 0 { // the labels below the zone in another spelling
+				cut := len(name) - len(zone)
+				name = respellAny(r, name[:cut]) + name[cut:]
+			}
 			salt := make([]byte, r.Intn(5))
 			r.Read(salt)
 			iter := r.Intn(4)
